@@ -32,6 +32,7 @@ from .introspect import (
     get_assign_targets,
     python_builtin_names,
     visit_inner_scope,
+    function_given_through_module,
     getsource_class,
 )
 from .structures import (
@@ -379,6 +380,7 @@ class IntroVisitorIndirect(ast.NodeVisitor):
         self._call_stack = call_stack
         # All the calls to a load and subsequent function calls, ordered
         self.results: List[Union[FunctionIndirectInteractions, DDSPath]] = []
+        self._called_attr_nodes: Set[int] = set()
 
     def visit_Lambda(self, node: ast.Lambda) -> Any:
         visit_inner_scope(self, node, self._function_var_names)
@@ -387,6 +389,7 @@ class IntroVisitorIndirect(ast.NodeVisitor):
         visit_inner_scope(self, node, self._function_var_names)
 
     def visit_Call(self, node: ast.Call) -> Any:
+        self._called_attr_nodes.add(id(node.func))
         # _logger.debug(f"visit: {node} {dir(node)} {pformat(node)}")
         # The list of all the previous interactions.
         # Check the call for dds calls or sub_calls.
@@ -400,6 +403,30 @@ class IntroVisitorIndirect(ast.NodeVisitor):
         if fi_or_p is not None:
             self.results.append(fi_or_p)
         self.generic_visit(node)
+
+    def visit_Attribute(self, node: ast.Attribute) -> Any:
+        # A function of another module handed over by name through the module: apply(m.f) (see visit_Name).
+        dotted = (
+            None
+            if id(node) in self._called_attr_nodes
+            else function_given_through_module(
+                node, self._start_mod, self._function_var_names
+            )
+        )
+        if dotted is None or LocalVar(dotted) in self._store_names:
+            self.generic_visit(node)
+            return
+        self._store_names.add(LocalVar(dotted))
+        call_node = ast.Call(func=node, args=[], keywords=[], starargs=None, kwargs=None)
+        fi_or_p = InspectFunctionIndirect.inspect_call(
+            call_node,
+            self._gctx,
+            self._start_mod,
+            self._function_var_names,
+            self._call_stack,
+        )
+        if fi_or_p is not None:
+            self.results.append(fi_or_p)
 
     def visit_Assign(self, node: ast.Assign) -> Any:
         targets = get_assign_targets(node)
